@@ -199,14 +199,14 @@ func (msg *message) bodySection(item *imap.FetchItemBodySection) []byte {
 	// Extract partial if any
 	b := buf.Bytes()
 	if partial := item.Partial; partial != nil {
-		end := partial.Offset + partial.Size
 		if partial.Offset > int64(len(b)) {
 			return nil
 		}
-		if end > int64(len(b)) {
-			end = int64(len(b))
+		b = b[partial.Offset:]
+		// Don't compute Offset + Size: it may overflow
+		if partial.Size < int64(len(b)) {
+			b = b[:partial.Size]
 		}
-		b = b[partial.Offset:end]
 	}
 	return b
 }
